@@ -128,7 +128,7 @@ impl<'a> ArxmlLexer<'a> {
         debug_assert!(endpos > self.bufpos + 1);
         debug_assert!(self.buffer[self.bufpos] == b'<');
 
-        if self.buffer[endpos - 1] != b'?' {
+        if endpos < self.bufpos + 3 || self.buffer[endpos - 1] != b'?' {
             return Some(Err(self.error(ArxmlLexerError::InvalidProcessingInstruction)));
         }
 
